@@ -122,6 +122,11 @@ func c17Cases(level int) []SCase {
 	e, _ := c08Cases(level)
 	cases = append(cases, e...)
 	cases = append(cases, c09Cases(level)...)
+	for _, c := range c04Family(0) {
+		if !strings.HasPrefix(c.Axes["pos"], "anyof") { // anyOf decodes into the merged struct (KF-C11-1): C11's subject
+			cases = append(cases, c)
+		}
+	}
 	for _, sc := range leafFamily(0) {
 		if sc.Axes["pos"] == "prop" || sc.Axes["pos"] == "nested" || sc.Axes["pos"] == "def" || (level >= 1 && sc.Axes["pos"] != "anyof") {
 			sc.ID = "C17/" + sc.ID
@@ -158,6 +163,9 @@ var c17Rules = []struct {
 	}},
 	{"NULL_TO_ADDL_STRUCT_ERRORS", func(p *c17Pair, diff string) bool {
 		return strings.Contains(p.j.Err+p.j.Panic, "reflect.Set: value of type map[string]interface {}") && p.y.Err == "" && strings.Contains(p.doc.Text, "null")
+	}},
+	{"NULL_OBJECT_VALIDATES_ZERO", func(p *c17Pair, diff string) bool {
+		return p.y.Err == "" && strings.Contains(p.doc.Text, "null") && (strings.Contains(p.j.Err, ": must be ") || strings.Contains(p.j.Err, "pattern match") || strings.Contains(p.j.Err, "length: must be"))
 	}},
 	{"FORMAT_DEF_NO_METHODS", func(p *c17Pair, diff string) bool {
 		return c17FormatDef.MatchString(p.j.Err) && p.y.Err == ""
